@@ -108,6 +108,36 @@ func main() {
 		if thorough {
 			capPB = 0
 		}
+		// retry matrix (the property's own quantifier): every limit 0..L and "fail the first k attempts"
+		// with k below, at and above the limit (and always), alone and with a dependent; PB(0) with both
+		// intervals, PB(1) without an interval in the three done arrangements
+		maxL := 3
+		if thorough {
+			maxL = 4
+		}
+		famDesc = append(famDesc, fmt.Sprintf("retry matrix: limit 0..%d x fail-first-k (k = 0..limit+2, always) x {alone, with a dependent, with a dependent and continueOn.failure} x interval {0,1s}: PB(0); PB(1) for interval 0 in the three done arrangements", maxL))
+		for L := 0; L <= maxL; L++ {
+			for _, k := range append(seq(0, L+2), -1) {
+				for _, iv := range []int{0, 1000} {
+					a := retrying(st("a"), k, L, iv)
+					ac := a
+					ac.CoF = true
+					for _, steps := range [][]StepCfg{{a}, {a, st("b", "a")}, {ac, st("b", "a")}} {
+						c := &Config{Steps: steps}
+						add(c, 0, 2000000, sub)
+						if iv == 0 && (thorough || (k >= L && k <= L+1 && L >= 1)) {
+							add(c, 1, capPB, sub)
+							cs := *c
+							cs.DoneSync, cs.OutBytes = true, 10
+							add(&cs, 1, capPB, sub)
+							cn := *c
+							cn.DoneNil, cn.OutBytes = true, 10
+							add(&cn, 1, capPB, sub)
+						}
+					}
+				}
+			}
+		}
 		for i, c := range sharp() {
 			// the agent's arrangement: unbuffered done channel consumed by a status-writer thread; steps print
 			cs := *c
@@ -337,6 +367,14 @@ func main() {
 	res.Assume("virtual time: computation is instantaneous relative to timers unless a preemption is spent")
 	res.Write(fl.Out)
 	os.RemoveAll(fl.Work)
+}
+
+func seq(a, b int) []int {
+	var out []int
+	for i := a; i <= b; i++ {
+		out = append(out, i)
+	}
+	return out
 }
 
 func envInt(k string, d int) int {
